@@ -1,11 +1,11 @@
-CONSTANT T <- T5
-CONSTANT NLeaves = 4
+CONSTANT T <- T3
+CONSTANT NLeaves = 5
 CONSTANT MaxUn = 0
 CONSTANT WithConst = FALSE
 CONSTANT Shard = 0
 CONSTANT NShards = 12
 CONSTANT BumpGuard = TRUE
-CONSTANT DeclineEq = TRUE
+CONSTANT FoldRule = "local"
 INIT Init
 NEXT Next
 INVARIANT DeepRefines
